@@ -287,7 +287,7 @@ MetaJudge(e, o) ==
         ELSE ResOk(0, {})
 
 ---------------------------------------------------------------------------
-(* Iterator histories: ops over {n, b, l}; out[t] = <<0>> none, <<1, v..>> *)
+(* Iterator histories: ops over {n, b, l, j, k, B}; out[t] = <<0>> none, <<1, v..>> *)
 (* some, <<2, len>>, <<-2>> panic                                          *)
 
 RECURSIVE ItRun(_, _, _, _, _, _, _, _)
@@ -297,12 +297,16 @@ ItRun(e, o, pre, S, it, ops, out, t) ==
     ELSE LET op == ops[t]
              got == out[t]
              front == it.f < it.b
-             exp == IF op = "n" THEN (IF front THEN <<1>> \o S[it.f + 1] ELSE <<0>>)
-                    ELSE IF op = "b" THEN (IF front THEN <<1>> \o S[it.b] ELSE <<0>>)
+             skip == IF op = "j" THEN 1 ELSE IF op = "k" THEN 3 ELSE IF op = "B" THEN 2 ELSE 0
+             enough == it.f + skip < it.b
+             exp == IF op \in {"n", "j", "k"} THEN (IF enough THEN <<1>> \o ItNthOut(S, it, skip) ELSE <<0>>)
+                    ELSE IF op \in {"b", "B"} THEN (IF enough THEN <<1>> \o ItNthBackOut(S, it, skip) ELSE <<0>>)
                     ELSE <<2, it.b - it.f>>
-             tag == pre \o (IF op = "n" THEN "next" ELSE IF op = "b" THEN "next_back" ELSE "len")
+             tag == pre \o (IF op = "n" THEN "next" ELSE IF op = "b" THEN "next_back"
+                            ELSE IF op \in {"j", "k"} THEN "nth" ELSE IF op = "B" THEN "nth_back" ELSE "len")
                         \o (IF front THEN ".live" ELSE ".exhausted")
-             it2 == IF op = "n" THEN ItNext(S, it) ELSE IF op = "b" THEN ItBack(S, it) ELSE it
+             it2 == IF op \in {"n", "j", "k"} THEN ItNth(S, it, skip)
+                    ELSE IF op \in {"b", "B"} THEN ItNthBack(S, it, skip) ELSE it
          IN  IF got = <<NA>> THEN Res(<< >>, 0, 0, {})
              ELSE IF got = exp
              THEN LET rest == ItRun(e, o, pre, S, it2, ops, out, t + 1)
@@ -627,6 +631,18 @@ SpaceEv ==
                                 \o (IF hasheap THEN <<Check(e, o, "space.huff.heap." \o fam, e.heap <= hb, e.heap, {hb})>> ELSE << >>)
                 IN  Advance(Merge(<<scaled, reported, bound>> \o hf), objs)
 
+\* SpaceUsage of the std containers the crate implements it for (C16): a boxed slice of k
+\* elements has k + 1 components
+SpaceStdEv ==
+    /\ IsEv("spstd")
+    /\ LET e == Ev
+           o == NoObj
+       IN  IF e.rep = NA \/ e.heap = NA THEN Advance(ResOk(0, {}), objs)
+           ELSE LET actual == e.heap + e.selfsz
+                    tol == ReportTolerance(actual, Len(e.lens) + 1, FALSE, 0)
+                IN  Advance(Check(e, o, "space.reported.std." \o e.shape,
+                                  e.rep >= 0 /\ Abs(e.rep - actual) <= tol, e.rep, {actual, tol}), objs)
+
 \* word-level utilities (C17)
 UtilEv ==
     /\ IsEv("util")
@@ -667,7 +683,7 @@ XB ==
 Other ==
     /\ l <= NRec
     /\ Rec[l].k \notin {"reset", "newt", "newq", "newb", "meta", "qg", "relm", "relo", "uq", "mut",
-                        "conv", "drop", "eq", "ith", "thr", "pure", "crash", "xb", "space", "util"}
+                        "conv", "drop", "eq", "ith", "thr", "pure", "crash", "xb", "space", "util", "spstd"}
     /\ Advance(ResOk(0, {}), objs)
 
 Finish ==
@@ -679,7 +695,7 @@ Finish ==
 Init == /\ l = 1 /\ objs = << >> /\ nbad = 0 /\ ncell = 0 /\ cov = {} /\ done = FALSE
 
 Next == \/ Reset \/ NewObj \/ Meta \/ QGrid \/ RelM \/ RelO \/ Uq \/ Mut \/ Conv \/ Drop
-        \/ EqEv \/ Ith \/ Thr \/ Pure \/ Crash \/ XB \/ SpaceEv \/ UtilEv \/ Other \/ Finish
+        \/ EqEv \/ Ith \/ Thr \/ Pure \/ Crash \/ XB \/ SpaceEv \/ SpaceStdEv \/ UtilEv \/ Other \/ Finish
 
 Spec == Init /\ [][Next]_vars
 
